@@ -733,6 +733,28 @@ theorem flow_member_shortcut_counterexample :
     ∧ exAudit.key ∉ bucket (arriveAllShortcut {} [exAudit, exMainWait]) "StartFlow"
     ∧ (arriveAllShortcut {} [exWatch]).index = (arriveAllS {} [exWatch]).index := by decide +kernel
 
+/-- **the name the indexer files a head under is the name the dispatcher compares incoming events with**: whenever
+    `get_event_name_from_element` names `nm`, so does `get_event_from_element` (whatever the member arguments are) -/
+theorem index_name_is_dispatch_name (b : Bool) (flows : List String) (ctx : Ctx) (s : ElemSpec) (nm : String)
+    (h : nameOfSpec flows ctx s = .ok nm) : dispatchNameOfSpec b flows ctx s = .ok nm := by
+  rw [← nameOfSpecG_actionEventName] at h
+  exact nameOfSpecG_mono _ _ (fun a m nm h => actionEventNameD_of_ok b a m nm h) flows ctx s nm h
+
+/-- without `arguments` among the member arguments the two functions are the same function (names AND exceptions) -/
+theorem dispatchNameOfSpec_false (flows : List String) (ctx : Ctx) (s : ElemSpec) :
+    dispatchNameOfSpec false flows ctx s = nameOfSpec flows ctx s := by
+  have hD : actionEventNameD false = actionEventName := by funext a m; simp [actionEventNameD]
+  rw [dispatchNameOfSpec, hD, nameOfSpecG_actionEventName]
+
+/-- the converse fails exactly where the code's two functions differ: `match $a.Change(arguments={…})` — the dispatcher names
+    `ChangeFooAction`, the indexer's name function (which passes no arguments) raises KeyError: the flow fails instead of parking -/
+example : dispatchNameOfSpec true [] [("a", .mk (.action "FooAction") [])] { varName := some "a", members := some ["Change"] } = .ok "ChangeFooAction"
+    ∧ nameOfSpec [] [("a", .mk (.action "FooAction") [])] { varName := some "a", members := some ["Change"] } = .error .changeWithoutArguments := by
+  decide +kernel
+/-- non-vacuity of `index_name_is_dispatch_name` on the seed's demo -/
+example : nameOfSpec exFlows [] (namedFlowSpec "transfer" "Start") = .ok "StartFlow"
+    ∧ dispatchNameOfSpec true exFlows [] (namedFlowSpec "transfer" "Start") = .ok "StartFlow" := by decide +kernel
+
 end refname
 
 /-
